@@ -14,8 +14,9 @@ rational arithmetic:
     |computed - exact|  <=  gamma(C*n, u) * B        gamma(k,u) = k*u / (1 - k*u)
     B = the same recurrence on (upper bounds of) the moduli, every minus replaced by plus
     f: u = 2^-53, C = 5     d: u = 2^-52, C = 5     m: u = 2^(1-wp), C = 16
-    (C from HessApriori.v: theta = (1+es)^2 (1+em) per step; em = sqrt(2) gamma_2 for the naive
-     complex product, gamma_14 for the 3-multiplication product of mpc_mul)
+    (C = 5 for f and d is DERIVED in Coq: C20_fhess_apriori_gamma, coq/Hess/HessStd.v, from the standard
+     model |rnd t - t| <= u |t| and the 4-multiplication complex product; C = 16 for m is
+     C20_hess_apriori_pow with the assumed constant em <= gamma_14 of mpc_mul's 3-multiplication product)
     m additionally: |computed - exact| <= returned error bound; the m variants are called with matrix,
     shift and output at equal AND at different precisions (matrix below / above the output, shift different
     again); u is taken from the OUTPUT precision
